@@ -2,6 +2,7 @@ package main
 
 import (
 	"bytes"
+	"compress/flate"
 	"context"
 	"flag"
 	"fmt"
@@ -78,7 +79,7 @@ func (pc *poolConn) peerSend(f ws.Frame) {
 	pc.raw.Out.Write(f.Encode())
 }
 
-var poolOps = []string{"start", "start", "readPart", "readPart", "readToEOF", "readToEOF", "readAgain", "readAgain", "startWhileOpen", "peerCloseMid", "closeNow", "ctxExpireMid", "newConn", "pingMid"}
+var poolOps = []string{"start", "start", "readPart", "readPart", "readToEOF", "readToEOF", "readAgain", "readAgain", "startWhileOpen", "peerCloseMid", "closeNow", "ctxExpireMid", "newConn", "pingMid", "dictProbe", "dictProbe"}
 
 func runPoolCase(rep *Report, seed int64) poolCase {
 	rng := rand.New(rand.NewSource(seed))
@@ -227,9 +228,15 @@ func runPoolCase(rep *Report, seed int64) poolCase {
 				cancel()
 				continue
 			}
-			_, _, err := pc.c.Reader(ctx)
+			// if the final frame was already consumed the library waits for the next message: bound that wait
+			sctx, scancel := context.WithTimeout(bg, 30*time.Millisecond)
+			_, _, err := pc.c.Reader(sctx)
+			scancel()
 			if err == nil {
 				rep.miss("second-reader-while-message-open", pcase, fmt.Sprintf("conn %d", pc.tag))
+			}
+			if sctx.Err() != nil {
+				pc.dead = true // the expired context closed the connection, as documented
 			}
 		case "pingMid":
 			pc.peerSend(ws.Frame{Fin: true, Op: ws.OpPing, Payload: []byte("p")})
@@ -279,6 +286,36 @@ func runPoolCase(rep *Report, seed int64) poolCase {
 				pc.dead = true
 			}
 			ccancel()
+		case "dictProbe":
+			// A fresh connection must start with an EMPTY inflate dictionary: its first compressed message is built
+			// against a preset dictionary the receiver cannot have, so every back-reference points before the start of
+			// the stream.  With an empty window the inflater must fail; a window recycled from another connection
+			// without being cleared would instead hand out that connection's bytes.
+			tagSeq++
+			npc, err := newPoolConn(rng, tagSeq)
+			if err != nil {
+				cancel()
+				continue
+			}
+			conns = append(conns, npc)
+			pcase.Modes = append(pcase.Modes, npc.mode)
+			dict := bytes.Repeat([]byte("<probe-dictionary-never-sent-to-this-receiver>"), 60)
+			var zb bytes.Buffer
+			fw, _ := flate.NewWriterDict(&zb, flate.BestCompression, dict)
+			fw.Write(dict[:1500])
+			fw.Flush()
+			z := bytes.TrimSuffix(zb.Bytes(), []byte{0, 0, 0xff, 0xff})
+			npc.peerSend(ws.Frame{Fin: true, Rsv1: true, Op: ws.OpBin, Payload: z})
+			_, r, err := npc.c.Reader(ctx)
+			if err == nil {
+				got, rerr := io.ReadAll(r)
+				if len(got) > 0 && !bytes.HasPrefix(dict, got) && !bytes.Contains(dict, got[:min(len(got), 20)]) {
+					rep.miss("read-returned-bytes-not-sent-on-this-connection", pcase, fmt.Sprintf("fresh conn %d, dictionary probe: got %d bytes %.60q err=%v", npc.tag, len(got), got, rerr))
+				} else if rerr == nil && len(got) > 0 {
+					rep.miss("fresh-connection-decoded-against-nonempty-dictionary", pcase, fmt.Sprintf("fresh conn %d: %d bytes %.40q", npc.tag, len(got), got))
+				}
+			}
+			npc.dead = true
 		case "newConn":
 			tagSeq++
 			npc, err := newPoolConn(rng, tagSeq)
